@@ -35,8 +35,11 @@ void initDVectorList(dvectorlist **lst){
 void NewDVectorList(dvectorlist **lst, size_t size_)
 {
   (*lst) = xmalloc(sizeof(dvectorlist));
+  size_t i;
   (*lst)->size = size_;
   (*lst)->d = xmalloc(sizeof(dvector*)*size_);
+  for(i = 0; i < size_; i++)
+    initDVector(&(*lst)->d[i]);
 }
 
 void DelDVectorList(dvectorlist **lst)
